@@ -93,15 +93,26 @@ def parseTx (rest : List String) (m : String) : Option Tx := do
   let h ← match kv rest "h" with | none => some false | some "0" => some false | some "1" => some true | some _ => none
   pure ⟨post, py, h⟩
 
+/-- optional `s=<n|e>`: the transaction's sequence id (the first attempt's id for a retried attempt, `e` = none sent).
+    Quotas, `reqIDToQuota`, `OnRequestDrop`, `OnResponseFinish` and `OnError` all work with the transaction id: the
+    sequence id has no part in the model. -/
+def seqOk (rest : List String) : Option Unit :=
+  match kv rest "s" with
+  | none => some ()
+  | some "e" => some ()
+  | some n => n.toNat?.map fun _ => ()
+
 def parseEvent (ws : List String) : Option Event :=
   match ws with
   | "req" :: rest => do
     let r ← kvNat rest "r"
+    seqOk rest
     let m ← kv rest "m"
     let tx ← parseTx rest m
     pure (.req r tx)
   | "resp" :: rest => do
     let r ← kvNat rest "r"
+    seqOk rest
     let tx ← parseTx rest ((kv rest "m").getD "G")
     pure (.resp r tx)
   | "err" :: rest => (kvNat rest "r").map .err
